@@ -1,13 +1,14 @@
 import DadiVerif.Lemmas.ProjArray
-import DadiVerif.Lemmas.Fold
+import DadiVerif.Lemmas.FoldAlg
 /-! C08, whole arrays, part 3: `fold`, `unfold`, `mirror` of the C08 model (Model/Spectrum.lean) on the index box.
     `fold`/`unfold` are shown to be the pointwise programs that C09's translator regenerates from `Spectrum.fold` /
-    `Spectrum.unfold` (Generated/Fold.lean), instantiated at multi-indices; from there C09's fold algebra
-    (Lemmas/Fold.lean, part A: `sfold`, `Loc`, `fo`, `coef`) gives fold∘project = fold∘project∘mirror =
+    `Spectrum.unfold` (Generated/ProjFold.lean, C08's copy of that part of the translation), instantiated at
+    multi-indices; from there C09's fold algebra (part A of Lemmas/Fold.lean, restated for this copy in
+    Lemmas/FoldAlg.lean: `sfold`, `Loc`, `fo`, `coef`) gives fold∘project = fold∘project∘mirror =
     fold∘project∘unfold∘fold and the conservation of totals. -/
 namespace DadiVerif
 namespace PBox
-open Finset Gen.Fold
+open Finset Gen.ProjFold
 
 /-! ### the multi-index instance of C09's local hypotheses -/
 
@@ -20,15 +21,8 @@ theorem sumNat_eq (l : List ℕ) : sumNat l = l.sum := by
   unfold sumNat
   rw [gen, Nat.zero_add]
 
-theorem totalSamples_eq (sh : List ℕ) : Spec.totalSamples sh = Fold.totalSamples sh := by
-  unfold Spec.totalSamples Fold.totalSamples
-  exact sumNat_eq _
-
-theorem revIdx_eq_mirrorIdx {sh idx : List ℕ} (h : InBox sh idx) : Spec.revIdx sh idx = Fold.mirrorIdx sh idx := by
-  unfold InBox at h
-  induction h with
-  | nil => rfl
-  | cons _ _ ih => rw [revIdx_cons, Fold.mirrorIdx, ih]
+theorem sumNat_cons (a : ℕ) (l : List ℕ) : sumNat (a :: l) = a + sumNat l := by
+  rw [sumNat_eq, sumNat_eq, List.sum_cons]
 
 theorem _root_.DadiVerif.InBox.rev {sh idx : List ℕ} (h : InBox sh idx) : InBox sh (Spec.revIdx sh idx) :=
   (inBox_iff _ _).mp (inBox_rev ((inBox_iff _ _).mpr h))
@@ -36,13 +30,21 @@ theorem _root_.DadiVerif.InBox.rev {sh idx : List ℕ} (h : InBox sh idx) : InBo
 theorem _root_.DadiVerif.InBox.invol {sh idx : List ℕ} (h : InBox sh idx) : Spec.revIdx sh (Spec.revIdx sh idx) = idx :=
   revIdx_invol ((inBox_iff _ _).mpr h)
 
+/-- total of the mirror entry + total of the entry = total sample size -/
+theorem total_rev {sh idx : List ℕ} (h : InBox sh idx) :
+    Spec.totalPerEntry (Spec.revIdx sh idx) + Spec.totalPerEntry idx = Spec.totalSamples sh := by
+  unfold InBox at h
+  unfold Spec.totalPerEntry Spec.totalSamples
+  induction h with
+  | nil => rfl
+  | @cons i s is ss h0 _ ih =>
+    rw [revIdx_cons, List.map_cons, sumNat_cons, sumNat_cons, sumNat_cons]
+    omega
+
 theorem loc_box {sh idx : List ℕ} (h : InBox sh idx) :
     Fold.Loc (Spec.revIdx sh) Spec.totalPerEntry (Spec.totalSamples sh) idx := by
-  have key := Fold.sum_mirrorIdx h
-  rw [← revIdx_eq_mirrorIdx h, ← totalSamples_eq] at key
-  refine ⟨InBox.invol h, ?_, ?_⟩
-  · simp only [Spec.totalPerEntry, sumNat_eq]; omega
-  · simp only [Spec.totalPerEntry, sumNat_eq]; omega
+  have key := total_rev h
+  exact ⟨InBox.invol h, by omega, by omega⟩
 
 theorem foldedOut_eq_fo (sh idx : List ℕ) : Spec.foldedOut sh idx = Fold.fo Spec.totalPerEntry (Spec.totalSamples sh) idx := by
   unfold Spec.foldedOut Fold.fo
@@ -304,7 +306,7 @@ theorem unfold_fold_rel {O : Spec} {sh : List ℕ} {f : List ℕ → ℚ} {G : L
     rw [unfold_getM _ idx hb, fold_shape, hR.shape]
     cases ha : O.fold.getM idx <;> cases hb' : O.fold.getM (Spec.revIdx sh idx) <;>
       cases hc : Spec.isCorner sh idx <;> cases hf : Spec.foldedOut sh idx <;>
-      cases hg : Spec.foldedOut sh (Spec.revIdx sh idx) <;> simp_all <;> tauto
+      cases hg : Spec.foldedOut sh (Spec.revIdx sh idx) <;> (simp_all; try tauto)
 
 /-! ### linearity of the closed form -/
 
